@@ -822,6 +822,10 @@ func (u *Unmarshaler) processNamedFieldWithoutValue(fieldType reflect.Type, valu
 	derefType := Deref(fieldType)
 	fieldKind := derefType.Kind()
 	if defaultValue, ok := opts.getDefault(); ok {
+		if !value.CanSet() {
+			return errValueNotSettable
+		}
+
 		if fieldType.Kind() == reflect.Ptr {
 			maybeNewValue(fieldType, value)
 			value = value.Elem()
@@ -841,6 +845,10 @@ func (u *Unmarshaler) processNamedFieldWithoutValue(fieldType reflect.Type, valu
 	switch fieldKind {
 	case reflect.Array, reflect.Slice:
 		if !opts.optional() {
+			if !value.CanSet() {
+				return errValueNotSettable
+			}
+
 			return u.processFieldNotFromString(fieldType, value, valueWithParent{
 				value: emptyMap,
 			}, opts, fullName)
@@ -854,6 +862,10 @@ func (u *Unmarshaler) processNamedFieldWithoutValue(fieldType reflect.Type, valu
 
 			if required {
 				return fmt.Errorf("必填字段 %q 未设置", fullName)
+			}
+
+			if !value.CanSet() {
+				return errValueNotSettable
 			}
 
 			return u.processFieldNotFromString(fieldType, value, valueWithParent{
